@@ -374,4 +374,68 @@ Proof.
     destruct v as [t|]; [|exact S1].
     apply (same_shape_on_trans _ X (transform ROps Mb X1)); [exact S1 | apply translate_same_shape].
 Qed.
+
+(* ---- the returned value does not depend on the initial pose ---- *)
+(* further contract of the callback: the deviation it reports is the same for a rotated copy of its first argument
+   (true of any optimal-superposition routine: Kabsch, quaternion fit, ...) *)
+Hypothesis func_invariant : forall P Q M, proper M -> snd (func (transform ROps M P) Q) = snd (func P Q).
+
+Definition pb_step (best : R * option matR) (r : matR * R) : R * option matR :=
+  if fltb ROps (snd r) (fst best) then (snd r, Some (fst r)) else best.
+
+Lemma pick_best_fold_snd_only (l l' : list (matR * R)) :
+  Forall2 (fun r r' => snd r = snd r') l l' ->
+  forall b b' : R * option matR, fst b = fst b' -> (snd b = None <-> snd b' = None) ->
+  fst (fold_left pb_step l b) = fst (fold_left pb_step l' b') /\
+  (snd (fold_left pb_step l b) = None <-> snd (fold_left pb_step l' b') = None).
+Proof.
+  induction 1 as [|r r' l l' Hr H IH]; intros b b' Hb Hn; simpl; [split; assumption|].
+  assert (S : fst (pb_step b r) = fst (pb_step b' r') /\ (snd (pb_step b r) = None <-> snd (pb_step b' r') = None)).
+  { unfold pb_step. rewrite Hr, Hb. destruct (fltb ROps (snd r') (fst b')); simpl.
+    - split; [reflexivity | split; discriminate].
+    - split; assumption. }
+  apply IH; apply S.
+Qed.
+
+Lemma align_with_value (X : list vecR) idx0 results v :
+  option_map snd (align_with ROps X idx0 results v)
+  = match snd (pick_best ROps results) with Some _ => Some (fst (pick_best ROps results)) | None => None end.
+Proof. unfold align_with. destruct (pick_best ROps results) as [r [M|]]; reflexivity. Qed.
+
+Lemma align_centered_reposed (X : list vecR) (idx0 : list nat) (M : matR) (w : vecR) :
+  idx0 <> [] -> (forall i, In i idx0 -> (i < length X)%nat) ->
+  align_centered ROps (translate ROps w (transform ROps M X)) idx0 = transform ROps M (align_centered ROps X idx0).
+Proof.
+  intros Hne Hr. unfold align_centered.
+  rewrite select_translate by (intros i Hi; unfold transform; rewrite map_length; apply Hr, Hi).
+  rewrite select_transform.
+  assert (Hs : transform ROps M (select ROps idx0 X) <> []).
+  { unfold transform, select. destruct idx0; [contradiction | discriminate]. }
+  rewrite centroid_translate by exact Hs. rewrite centroid_transform.
+  generalize (centroid ROps (select ROps idx0 X)). intros c.
+  unfold translate, transform. rewrite !map_map. apply map_ext. intros x.
+  vdestruct. f3. veq; ring.
+Qed.
+
+Theorem align_pose_independent (X : list vecR) (idxs : list (list nat)) (ref : list vecR) (v : option vecR)
+        (M : matR) (w : vecR) :
+  proper M -> hd [] idxs <> [] -> (forall i, In i (hd [] idxs) -> (i < length X)%nat) ->
+  option_map snd (align ROps func (translate ROps w (transform ROps M X)) idxs ref v)
+  = option_map snd (align ROps func X idxs ref v).
+Proof.
+  intros HM Hne Hr. unfold align. destruct idxs as [|idx0 rest]; [reflexivity|]. simpl hd in *.
+  rewrite !align_with_value.
+  set (l' := map (fun P => func P ref) (align_inputs ROps X idx0 (idx0 :: rest))).
+  set (l := map (fun P => func P ref) (align_inputs ROps (translate ROps w (transform ROps M X)) idx0 (idx0 :: rest))).
+  assert (F : Forall2 (fun r r' => snd r = snd r') l l').
+  { subst l l'. unfold align_inputs. rewrite align_centered_reposed by assumption. rewrite !map_map.
+    generalize (idx0 :: rest). intros L. induction L as [|ix L IH]; simpl; constructor; [|exact IH].
+    rewrite select_transform. apply func_invariant, HM. }
+  destruct (pick_best_fold_snd_only l l' F (fofZ ROps 100, None) (fofZ ROps 100, None) eq_refl (conj (fun e => e) (fun e => e))) as [E1 E2].
+  change (fold_left pb_step l (fofZ ROps 100, None)) with (pick_best ROps l) in *.
+  change (fold_left pb_step l' (fofZ ROps 100, None)) with (pick_best ROps l') in *.
+  rewrite E1. destruct (snd (pick_best ROps l)) as [m|] eqn:A; destruct (snd (pick_best ROps l')) as [m'|] eqn:B; try reflexivity.
+  - destruct E2 as [_ E2]. specialize (E2 eq_refl). discriminate.
+  - destruct E2 as [E2 _]. specialize (E2 eq_refl). discriminate.
+Qed.
 End Align.
